@@ -1,0 +1,24 @@
+//go:build verif
+
+// Contracts for the deductive verification machinery in /verif (comment-only; compiled only with -tags=verif).
+package entity
+
+// ---------------------------------------------------------------------------
+// C13: the service layer compacts an identifier the way the store does: an absolute http(s) URI is never read as a compact
+// identifier (its scheme is not a namespace prefix); it is split into namespace and local part and compacted with the
+// registered prefix of the namespace. A compact identifier with a registered prefix denotes itself.
+//@ assumed (namespace.Manager).ExtractPrefix
+//@   pure
+//@ assumed (namespace.Manager).ExpandPrefix
+//@   pure
+//@ assumed (namespace.Manager).ExtractNamespaceURI
+//@   pure
+//@ assumed (namespace.Manager).GetNamespacePrefix
+//@   pure
+//@ unit (entity.Lookup).asCURIE
+//@   prop C13
+//@   ghost curieBranchG bool = false
+//@   ensures [C13:a-compact-identifier-with-a-registered-prefix-denotes-itself] curieBranchG && ret1 == nil ==> ret0 == id
+//@   at call ExpandPrefix#1 before
+//@     assert [C13:absolute-http-uris-are-never-read-as-compact-identifiers] !hasPrefix(id, "http")
+//@     ghost curieBranchG := true
